@@ -8,7 +8,7 @@ open XsVerif.Props.C13
 #print axioms plan_refuse_iff
 #print axioms undefused_transparent
 #print axioms clean_parsed_partial
-#print axioms clean_refused_counterexample_raw
+#print axioms clean_refused_counterexample_raw_bigprolog
 #print axioms clean_refused_counterexample_bigprolog
 #print axioms clean_refused_counterexample_text
 #print axioms run_refines
